@@ -169,6 +169,7 @@ class Contract:
             if k > 0:
                 raise PyRaise(self.may_raise[k - 1])
         r = self.fresh_result(c, a)
+        c.ghost.setdefault('calls', []).append((finfo.key, a, r))       # ghost: modular calls made (for caller-side contracts)
         if not getattr(self, 'exact_result', False):
             self.post(EnsureCtx(c, 'assume'), a, r)     # (an exact result() already says everything post would)
         self.effects(c, a, r)
